@@ -16,19 +16,26 @@ if os.path.exists(mp):
 st = subprocess.run(["git", "-C", REPO, "status", "--porcelain", "--untracked-files=no"], capture_output=True, text=True).stdout.strip()
 if st:
     print("refusing: /repo dirty"); sys.exit(2)
-for prop in sorted(os.listdir(SRC)):
-    pd = os.path.join(SRC, prop)
-    if not os.path.isdir(pd):
-        continue
-    for n in sorted(os.listdir(pd)):
-        d = os.path.join(pd, n)
-        patch = os.path.join(d, "patch.diff")
-        if not os.path.exists(patch):
+def seeds():
+    """either SRC/<prop>/<n>/patch.diff (incoming layout) or SRC/<seed id>/patch.diff (the confirmed seeds)"""
+    for prop in sorted(os.listdir(SRC)):
+        pd = os.path.join(SRC, prop)
+        if not os.path.isdir(pd):
             continue
-        if ONLY and not any(prop.startswith(o) for o in ONLY):
+        if os.path.exists(os.path.join(pd, "patch.diff")):
+            if not ONLY or any(prop.startswith(o) for o in ONLY):
+                yield prop, os.path.join(pd, "patch.diff")
             continue
-        pid = "C" + re.sub(r"\D", "", prop[-2:]).zfill(2)
-        sid = f"{pid}-{n}" if not prop.startswith("r2") else f"{pid}-r2-{n}"
+        for n in sorted(os.listdir(pd)):
+            patch = os.path.join(pd, n, "patch.diff")
+            if not os.path.exists(patch) or (ONLY and not any(prop.startswith(o) for o in ONLY)):
+                continue
+            pid = "C" + re.sub(r"\D", "", prop[-2:]).zfill(2)
+            yield (f"{pid}-{n}" if not prop.startswith("r2") else f"{pid}-r2-{n}"), patch
+
+
+for sid, patch in seeds():
+    if True:
         if sid in out and not os.environ.get("FORCE"):
             continue
         r = subprocess.run(["git", "-C", REPO, "apply", patch], capture_output=True, text=True)
